@@ -269,14 +269,32 @@ class Canon:
                 elif isinstance(n, ast.AugAssign):
                     alts.add('aug(%s)' % self.p(n.value, frame, d, s2))
                 elif isinstance(n, (ast.For, ast.AsyncFor, ast.comprehension)):
+                    it = n.iter
                     if isinstance(n.target, ast.Name):
-                        alts.add('elem(%s)' % self.p(n.iter, frame, d, s2))
+                        alts.add('elem(%s)' % self.p(it, frame, d, s2))
+                    elif isinstance(n.target, ast.Tuple) and len(n.target.elts) == 2 and isinstance(
+                            it, ast.Call) and isinstance(it.func, ast.Attribute) and it.func.attr == 'items' \
+                            and not it.args and all(isinstance(x, ast.Name) for x in n.target.elts):
+                        D = self.p(it.func.value, frame, d, s2)
+                        if n.target.elts[0].id == e.id:
+                            alts.add('elem(%s)' % D)
+                        else:
+                            alts.add('%s[elem(%s)]' % (D, D))
+                    elif isinstance(n.target, ast.Tuple) and isinstance(it, ast.Call) and isinstance(
+                            it.func, ast.Name) and it.func.id == 'enumerate' and len(it.args) == 1 and \
+                            len(n.target.elts) == 2 and isinstance(n.target.elts[1], ast.Name) and \
+                            n.target.elts[1].id == e.id:
+                        alts.add('elem(%s)' % self.p(it.args[0], frame, d, s2))
                     else:
-                        alts.add('elem.part(%s)' % self.p(n.iter, frame, d, s2))
+                        alts.add('elem.part(%s)' % self.p(it, frame, d, s2))
                 elif isinstance(n, ast.AnnAssign) and n.value is not None:
                     alts.add(self.p(n.value, frame, d, s2))
                 else:
                     alts.add(e.id)
+            if alts and alts <= {'[]', '{}', 'list()', 'dict()'}:
+                built = self._built(e.id, frame, d, seen | {key})
+                if built is not None:
+                    return built
             if len(alts) == 1:
                 return next(iter(alts))
             return '{' + '|'.join(sorted(alts)) + '}'
@@ -309,7 +327,12 @@ class Canon:
             conds = ''.join(' if ' + self.p(c, frame, d, seen) for c in g.ifs)
             kind = 'set' if isinstance(e, ast.SetComp) else 'seq'
             return '%s[%s for %s%s]' % (kind, self.p(e.elt, frame, d, seen),
-                                        self.p(g.iter, frame, d, seen), conds)
+                                        self._iter_p(g.iter, frame, d, seen), conds)
+        if isinstance(e, ast.DictComp) and len(e.generators) == 1:
+            g = e.generators[0]
+            conds = ''.join(' if ' + self.p(c, frame, d, seen) for c in g.ifs)
+            return 'map[%s: %s for %s%s]' % (self.p(e.key, frame, d, seen), self.p(e.value, frame, d, seen),
+                                             self._iter_p(g.iter, frame, d, seen), conds)
         if isinstance(e, ast.Call):
             src = copy_source(e, order=True)
             if src is not None:
@@ -322,6 +345,9 @@ class Canon:
                         from .paths import bind_args
                         sub = Frame(cals[0], frame, bind_args(cals[0], e, frame), e)
                         return self.p(g, sub, d, seen)
+            inl = self._inline_helper(e, frame, d, seen)
+            if inl is not None:
+                return inl
             fn = e.func
             if isinstance(fn, ast.Attribute):
                 fs = self.p(fn.value, frame, d, seen) + '.' + fn.attr
@@ -367,6 +393,133 @@ class Canon:
             return ast.unparse(e)
         except Exception:
             return '<expr>'
+
+    def _iter_p(self, it, frame, d, seen):
+        """provenance of an iterable; D.items() / D.keys() iterate D"""
+        if isinstance(it, ast.Call) and isinstance(it.func, ast.Attribute) and it.func.attr in ('items', 'keys') \
+                and not it.args:
+            return self.p(it.func.value, frame, d, seen)
+        return self.p(it, frame, d, seen)
+
+    def _built(self, name, frame, d, seen):
+        """A local initialised empty and filled at exactly one site inside a for-loop is
+        the comprehension it spells out: seq[E for I (if C)] / map[K: V for I (if C)]."""
+        f = frame.func
+        sites = []
+        for n in walk_no_nested(f.node):
+            if isinstance(n, ast.Call) and isinstance(n.func, ast.Attribute) and isinstance(
+                    n.func.value, ast.Name) and n.func.value.id == name:
+                if n.func.attr == 'append' and len(n.args) == 1:
+                    sites.append(('seq', n, None, n.args[0]))
+                elif n.func.attr in MUTATORS:
+                    return None
+            elif isinstance(n, ast.Assign):
+                for t in n.targets:
+                    if isinstance(t, ast.Subscript) and isinstance(t.value, ast.Name) and t.value.id == name:
+                        sites.append(('map', n, t.slice, n.value))
+            elif isinstance(n, (ast.AugAssign, ast.Delete)):
+                tg = [n.target] if isinstance(n, ast.AugAssign) else n.targets
+                for t in tg:
+                    if any(isinstance(x, ast.Name) and x.id == name for x in ast.walk(t)):
+                        return None
+        if len(sites) != 1:
+            return None
+        kind, node, k, v = sites[0]
+        # innermost enclosing for-loop and the ifs between it and the site
+        loop = None
+        conds = []
+
+        def rec(n, stack):
+            nonlocal loop, conds
+            if n is node or any(x is node for x in ast.iter_child_nodes(n) if isinstance(x, ast.expr)):
+                pass
+            for c in ast.iter_child_nodes(n):
+                if isinstance(c, (ast.FunctionDef, ast.AsyncFunctionDef, ast.ClassDef, ast.Lambda)):
+                    continue
+                ns = stack
+                if isinstance(n, (ast.For, ast.AsyncFor)) and c in n.body:
+                    ns = stack + [('for', n)]
+                elif isinstance(n, ast.If) and c in n.body:
+                    ns = stack + [('if', n.test, True)]
+                elif isinstance(n, ast.If) and c in n.orelse:
+                    ns = stack + [('if', n.test, False)]
+                elif isinstance(n, (ast.While,)) and c in n.body:
+                    ns = stack + [('while', n)]
+                if c is node or (isinstance(c, ast.Expr) and c.value is node):
+                    fors = [i for i, x in enumerate(ns) if x[0] == 'for']
+                    if fors:
+                        loop = ns[fors[-1]][1]
+                        conds = [x for x in ns[fors[-1] + 1:] if x[0] == 'if']
+                        if any(x[0] == 'while' for x in ns[fors[-1] + 1:]):
+                            loop = None
+                    return True
+                if rec(c, ns):
+                    return True
+            return False
+        rec(f.node, [])
+        if loop is None:
+            return None
+        cs = ''
+        for _, t, pol in conds:
+            cs += ' if %s%s' % ('' if pol else 'not ', self.p(t, frame, d, seen))
+        it = self._iter_p(loop.iter, frame, d, seen)
+        if kind == 'seq':
+            return 'seq[%s for %s%s]' % (self.p(v, frame, d, seen), it, cs)
+        return 'map[%s: %s for %s%s]' % (self.p(k, frame, d, seen), self.p(v, frame, d, seen), it, cs)
+
+    # helper methods whose NAME carries meaning for the rules are never inlined
+    NO_INLINE = {'_create_observation_task_id', 'get_machine_from_id', 'is_task_finished',
+                 'get_idle_resources', 'get_available_resources', 'current_available_resources',
+                 '_calc_task_delay', '_wait_for_transfer', 'calculate_runtime', 'generate_delay',
+                 '_create_random_value_from_runtime', '_find_pred_allocations', '_workflow_to_nx',
+                 '_calc_workflow_est', 'has_capacity_for', 'check_buffer_capacity', 'check_ingest_capacity',
+                 'is_observation_provisioned', 'is_occupied', '_provision_resources', '_max_resource_provision',
+                 'process_incoming_data_stream', 'receive_observation', 'transfer_observation', 'remove',
+                 'observation_for_transfer', 'next_observation_for_processing', 'finish_observation',
+                 'begin_observation', 'is_ready', 'is_finished', 'mark_observation_finished', 'to_df',
+                 # private helpers that exist today and that a rule names as its anchor (a NEW helper
+                 # introduced by an extract-method refactoring is inlined; these are judged as they are)
+                 '_add_event', '_generate_ingest_tasks', '_set_machine_available', '_set_machine_occupied',
+                 '_generate_current_schedule', '_process_current_schedule', '_update_current_plan',
+                 '_generate_final_task_data', '_calc_observation_delay', '_add_idle_resource',
+                 '_remove_available_resource', '_update_available_resources', '_reset_idle_resources',
+                 '_attempt_machine_allocation', '_compose_hdf5_output', '_initialise_shadow_workflows',
+                 '_run_scheduling', '_cluster_to_shadow_format', '_build_simulations',
+                 '_review_experiment_combinations', '_get_batch_observations', '_update_usage_data'}
+
+    def _inline_helper(self, call, frame, d, seen):
+        """provenance of a call to a small side-effect-free helper of the same class
+        hierarchy: the provenance of what it returns (parameters bound)"""
+        if frame is None or d > 12:
+            return None
+        fn = call.func
+        if not (isinstance(fn, ast.Attribute) and isinstance(fn.value, ast.Name) and fn.value.id == 'self'):
+            return None
+        if fn.attr in self.NO_INLINE or frame.func.cls is None:
+            return None
+        cal = frame.func.cls.find_method(fn.attr)
+        if cal is None or cal.is_generator or cal is frame.func:
+            return None
+        fr = frame
+        while fr is not None:
+            if fr.func is cal:
+                return None
+            fr = fr.parent
+        rets = [n for n in walk_no_nested(cal.node) if isinstance(n, ast.Return)]
+        if len(rets) != 1 or rets[0].value is None:
+            return None
+        # no writes to attributes / foreign objects
+        for n in walk_no_nested(cal.node):
+            if isinstance(n, (ast.Assign, ast.AugAssign)):
+                tg = n.targets if isinstance(n, ast.Assign) else [n.target]
+                for t in tg:
+                    if isinstance(t, ast.Attribute):
+                        return None
+            if isinstance(n, (ast.While, ast.Raise, ast.Yield)):
+                return None
+        from .paths import bind_args
+        sub = Frame(cal, frame, bind_args(cal, call, frame), call)
+        return self.p(rets[0].value, sub, d, seen)
 
     def loc(self, e, frame):
         """Canonical location string of an lvalue-like expression, else None."""
